@@ -119,11 +119,6 @@ def blobType (T : Tables) (d : Dialect) (c : Caps) (pickle : Bool) (length : Nat
   | .mssql => if c.maxTypes then T.blobMssqlMax else T.blobMssqlNoMax
   | d => strType T d c false length vc
 
-def enumLitDb : Dialect → LitDb
-  | .mysql => .mysql
-  | .firebird => .plain
-  | _ => .postgres          -- `_sqliteType = _postgresType`; sybase and mssql call `_postgresType()`
-
 def kwNULLlit : Str := [78, 85, 76, 76]
 
 def enumLit (l : LitDb) : Option Str → Str
@@ -158,10 +153,10 @@ def typePieces (T : Tables) (d : Dialect) (c : Caps) (db : Str) : Kind → Optio
     | .mysql =>
       let lits := (vals.filterMap id).map (sqlLit .mysql)
       let e := wordParen T.enumMysql.1 (joinWith T.enumSep lits)
-      if vals.contains none then some ([e], []) else some ([e, T.enumMysqlNotNull], [])
+      if vals.contains none ∨ T.enumMysqlExtra = [] then some ([e], []) else some ([e, T.enumMysqlExtra], [])
     | d =>
       if vals = [] then none else
-      let lits := vals.map (enumLit (enumLitDb d))
+      let lits := vals.map (enumLit (T.enumLit d))
       let vc := wordParen T.enumVarchar.1 (natDigits (enumMaxLen vals))
       let chk := [T.enumCheck.1, enumCheckGroup T db lits]
       if d = .firebird then some ([vc], chk) else some (vc :: chk, [])
@@ -189,15 +184,18 @@ def colPieces (T : Tables) (d : Dialect) (c : Caps) (st : Style) (col : Col) : O
 
 def spaced (pieces : List Str) : Str := pieces.flatMap (32 :: ·)
 
-/-- `SOForeignKey.maxdbCreateSQL`: ignores `_extraSQL`, adds a table-level clause -/
-def maxdbFkText (T : Tables) (db tTable tId : Str) (tIdStr : Bool) : Str :=
-  db ++ 32 :: T.keyType .maxdb tIdStr ++ [44, 10] ++
-    [70, 79, 82, 69, 73, 71, 78, 32, 75, 69, 89, 32, 40] ++ db ++ [41, 32] ++ kwREFERENCES ++ [32] ++
-    tTable ++ 40 :: (tId ++ [41])
+/-- the table-level clause `FOREIGN KEY (col) REFERENCES t(id)` of `SOForeignKey.maxdbCreateSQL` -/
+def maxdbFkPieces (db tTable tId : Str) : List Str :=
+  [kwFOREIGN, kwKEY, 40 :: (db ++ [41]), kwREFERENCES, tTable ++ 40 :: (tId ++ [41])]
+
+/-- `",\nFOREIGN KEY (col) REFERENCES t(id)"` -/
+def maxdbFkTail (db tTable tId : Str) : Str :=
+  44 :: 10 :: (spaced (maxdbFkPieces db tTable tId)).drop 1
 
 def colText (T : Tables) (d : Dialect) (c : Caps) (st : Style) (col : Col) : Option Str :=
   match d, col.kind with
-  | .maxdb, .fk tTable tId tIdStr _ => some (maxdbFkText T (col.db st) tTable tId tIdStr)
+  | .maxdb, .fk tTable tId _ _ =>
+    (colPieces T d c st col).map fun ps => col.db st ++ spaced ps ++ maxdbFkTail (col.db st) tTable tId
   | _, _ => (colPieces T d c st col).map fun ps => col.db st ++ spaced ps
 
 def idText (T : Tables) (d : Dialect) (decl : Decl) : Option Str :=
